@@ -661,14 +661,14 @@ func (x *Exec) applyContract(s *State, c *Contract, call *ssa.CallCommon, args [
 				}
 			}
 			if id, ok := a.(*spec.Ident); ok && id.Name == "unrestricted" {
-				// every real heap entry except write-restricted ones this callee cannot reach; ghost variables only
-				// change when a contract lists them
+				// every real heap entry except write-restricted ones this callee cannot reach; ghost variables and
+				// ghost fields only change when a contract lists them
 				keep := map[string]bool{}
 				for k, v := range x.havocKeep {
 					keep[k] = v
 				}
 				for h := range x.E.HeapSorts {
-					if strings.HasPrefix(h, "GV$") {
+					if strings.HasPrefix(h, "GV$") || strings.HasPrefix(h, "GF$") {
 						keep[h] = true
 					}
 				}
@@ -925,6 +925,9 @@ func (x *Exec) applyFieldContract(s *State, fc *FieldContract, call *ssa.CallCom
 // candidates' assigns clauses. If the value equals none of them the results stay unconstrained.
 func (x *Exec) dispatchKnownFuncs(s *State, call *ssa.CallCommon, fnv Val, args []Val) (Val, bool, bool) {
 	sig := call.Signature()
+	if nt, ok := call.Value.Type().(*types.Named); ok && nt.Obj().Pkg() != nil && nt.Obj().Pkg().Path() == "context" && nt.Obj().Name() == "CancelFunc" {
+		return nil, false, false // a context.CancelFunc is a closure made by package context, never a module function
+	}
 	var cands []*Contract
 	for _, c := range x.E.SortedContracts() {
 		if c.Fn == nil && !c.Trusted {
